@@ -166,7 +166,7 @@ func c16Run(t *testing.T, s *sim.Scn) *sim.Outcome {
 				k = sim.SubCanceledWrapped
 			}
 			for _, d := range []*sim.SimDA{d1, d2} {
-				d.SubmitScript = append(d.SubmitScript, sim.SubmitOutcome{Kind: k, N: int(op.B), Advance: op.C%2 == 1})
+				d.SubmitScript = append(d.SubmitScript, sim.SubmitOutcome{Kind: k, N: int(op.B), Advance: op.C%2 == 1, Decor: int(op.C>>1) % 4})
 			}
 			o.Count("scripted-submit:"+k.String(), 1)
 		case "rscript":
@@ -310,7 +310,7 @@ func c16Gen(r *rand.Rand, tier string) *sim.Scn {
 		switch x := r.IntN(100); {
 		case x < 40:
 			if r.IntN(100) < pErr {
-				s.Ops = append(s.Ops, sim.Op{K: "script", A: r.Int64N(12), B: r.Int64N(4), C: r.Int64N(2)})
+				s.Ops = append(s.Ops, sim.Op{K: "script", A: r.Int64N(12), B: r.Int64N(4), C: r.Int64N(8)})
 			}
 			k := "submit"
 			if r.IntN(15) == 0 {
@@ -334,7 +334,7 @@ func TestC16(t *testing.T) {
 	sim.Main(t, &sim.Check{
 		ID:    "C16",
 		Level: "exploration",
-		Rule: "seeded call sequences through the node's helpers on a direct and a proxied instance of identically configured simulated DA layers: submissions of 0-5 blobs with sizes around the limit (0,1,30,59,60,61,100,200 bytes; limit 60/100/250), every submit error of the interface injected at the backing store (timed out, already in mempool, too big, deadline, generic, acknowledgement lost, sequence error, partial acceptance, a cancellation reported by the DA side while the caller's context is live - bare and wrapped), pre-cancelled contexts, retrievals of heights that are empty / from the future / failing on listing / failing on a Get chunk / holding >100 blobs; " +
+		Rule: "seeded call sequences through the node's helpers on a direct and a proxied instance of identically configured simulated DA layers: submissions of 0-5 blobs with sizes around the limit (0,1,30,59,60,61,100,200 bytes; limit 60/100/250), every submit error of the interface injected at the backing store (timed out, already in mempool, too big, deadline, generic, acknowledgement lost, sequence error, partial acceptance, a cancellation reported by the DA side while the caller's context is live - bare and wrapped; each error also decorated the way DA nodes do: wrapped with context, joined with Go's deadline error in either order), pre-cancelled contexts, retrievals of heights that are empty / from the future / failing on listing / failing on a Get chunk / holding >100 blobs; " +
 			"compared call by call (status code, submitted count, ids, blobs, backing-store contents). distinct = distinct scenario hash; non-trivial = at least 3 compared calls",
 		Assumptions: []string{"the JSON-RPC transport is a real loopback socket (no seam in NewClient); it runs outside the simulated clock", "the two backing stores are separate but identically configured and driven"},
 		Components:  map[string]string{"da/jsonrpc client, server, error mapping": "real (loopback HTTP)", "types.SubmitWithHelpers / RetrieveWithHelpers": "real", "backing DA": "stub (SimDA)"},
